@@ -173,6 +173,73 @@ theorem normKvs_append (a b : List (Text × Detail)) : normKvs (a ++ b) = normKv
   | nil => simp [normKvs]
   | cons x xs ih => rcases x with ⟨k, d⟩; simp [normKvs, ih]
 
+
+theorem normEntry_ne_nil (k : Text) (d : Detail) : ∃ x xs, normEntry k d = x :: xs := by
+  cases d with
+  | null => exact ⟨_, _, by simp only [normEntry]; rfl⟩
+  | leaf t => exact ⟨_, _, by simp only [normEntry]; rfl⟩
+  | node kvs => cases kvs <;> exact ⟨_, _, by simp only [normEntry]; rfl⟩
+  | list items =>
+    cases items with
+    | nil => exact ⟨_, _, by simp only [normEntry]; rfl⟩
+    | cons i is => exact ⟨_, _, by simp only [normEntry, normItems]; rfl⟩
+
+theorem normKvs_cons_ne_nil (k : Text) (d : Detail) (rest : List (Text × Detail)) :
+    ∃ x xs, normKvs ((k, d) :: rest) = x :: xs := by
+  obtain ⟨x, xs, h⟩ := normEntry_ne_nil k d
+  exact ⟨x, xs ++ normKvs rest, by simp [normKvs, h]⟩
+
+mutual
+theorem normEntry_normScalar (k : Text) : ∀ d, normEntry k (normScalar d) = [(k, normScalar d)]
+  | .null => by simp [normScalar, normEntry]
+  | .leaf t => by by_cases h : t = [] <;> simp [normScalar, normEntry, h]
+  | .node [] => by simp [normScalar, normEntry]
+  | .node ((k', d) :: rest) => by
+      obtain ⟨x, xs, hx⟩ := normKvs_cons_ne_nil k' d rest
+      have h := normKvs_idem ((k', d) :: rest)
+      simp only [normScalar]
+      rw [hx] at h ⊢
+      simp only [normEntry]
+      rw [h]
+  | .list _ => by simp [normScalar, normEntry]
+theorem normEntry_normItem (k : Text) : ∀ d, normEntry k (normItem d) = [(k, normItem d)]
+  | .null => by
+      have : (T "None" = []) = False := by decide
+      simp [normItem, normEntry, this]
+  | .leaf t => by by_cases h : t = [] <;> simp [normItem, normEntry, h]
+  | .node [] => by simp [normItem, normEntry]
+  | .node ((k', d) :: rest) => by
+      obtain ⟨x, xs, hx⟩ := normKvs_cons_ne_nil k' d rest
+      have h := normKvs_idem ((k', d) :: rest)
+      simp only [normItem]
+      rw [hx] at h ⊢
+      simp only [normEntry]
+      rw [h]
+  | .list _ => by simp [normItem, normEntry]
+theorem normKvs_normItems (k : Text) : ∀ is, normKvs (normItems k is) = normItems k is
+  | [] => by simp [normItems, normKvs]
+  | i :: is => by simp [normItems, normKvs, normEntry_normItem k i, normKvs_normItems k is]
+theorem normKvs_normEntry (k : Text) : ∀ d, normKvs (normEntry k d) = normEntry k d
+  | .null => by simp [normEntry, normKvs]
+  | .leaf t => by by_cases h : t = [] <;> simp [normEntry, normKvs, h]
+  | .node [] => by simp [normEntry, normKvs]
+  | .node ((k', d) :: rest) => by
+      have h := normEntry_normScalar k (.node ((k', d) :: rest))
+      simp only [normScalar] at h
+      have e : normEntry k (.node ((k', d) :: rest)) = [(k, .node (normKvs ((k', d) :: rest)))] := by
+        simp only [normEntry]
+      rw [e]
+      show normEntry k _ ++ normKvs [] = _
+      rw [h]; simp [normKvs]
+  | .list [] => by simp [normEntry, normKvs]
+  | .list (i :: is) => by simp only [normEntry]; exact normKvs_normItems k (i :: is)
+/-- the reading is a normal form: normalising twice changes nothing -/
+theorem normKvs_idem : ∀ kvs, normKvs (normKvs kvs) = normKvs kvs
+  | [] => by simp [normKvs]
+  | (k, d) :: rest => by
+      simp only [normKvs, normKvs_append, normKvs_normEntry k d, normKvs_idem rest]
+end
+
 /-! ### detail ⇄ dict document -/
 mutual
 theorem docToDetail_detailToDoc : ∀ d, docToDetail (detailToDoc d) = d
@@ -328,20 +395,24 @@ theorem serializeFailed_erase (F : Facts09) (t : Text) (h : F.faultString = .con
   · rcases r with ⟨c, f⟩ | (_ | e) | e <;>
       simp [serializeFailed, hs, Raised.erase, genericFault, faultString, h]
 
+theorem afterRaise_erase (F : Facts09) (t : Text) (h : F.faultString = .constant t) (o : OutObj) (r : Raised) :
+    afterRaise F o r.erase = afterRaise F o r := by
+  rcases r with ⟨c, f⟩ | (_ | e) | e <;> simp [Raised.erase, afterRaise, funnel, genericFault, faultString, h]
+
 /-- non-interference: the response is the same whatever the non-Fault exceptions carry -/
 theorem wsgi_erase (F : Facts09) (t : Text) (h : F.faultString = .constant t) (p : Proto)
     (preset : Option Nat) (u : UserCode) : wsgi F p preset u.erase = wsgi F p preset u := by
-  rcases u with s | ⟨first, later⟩
+  rcases u with s | ⟨first, later⟩ | ⟨site, level, r, body⟩
   · rcases s with v | r
     · rfl
-    · rcases r with ⟨c, f⟩ | (_ | e) | e <;>
-        simp [UserCode.erase, Step.erase, Raised.erase, wsgi, process, funnel, genericFault, faultString, h]
+    · simp [UserCode.erase, Step.erase, wsgi, process, afterRaise_erase F t h]
   · rcases first with v | r
     · rcases later with _ | r
       · rfl
       · simp [UserCode.erase, Step.erase, wsgi, process, serializeFailed_erase F t h]
     · simp [UserCode.erase, Step.erase, wsgi, process, funnel_erase F t h]
-
+  · cases site <;> rcases body with v | r' <;>
+      simp [UserCode.erase, Step.erase, wsgi, process, afterRaise_erase F t h]
 
 /-! ### the spyne clients -/
 theorem client11_encode (F : Facts09) (f : FaultV) :
